@@ -194,6 +194,34 @@ class GuardView:
             t = _peel(g[1])
             if t[0] == "call" and short_name(t[1]) == "exists" and len(t[2]) == 2:
                 out.append(t[2][1])
+            # `opt.map_or(false, |i| map.contains_key(&key[..i]))` / `opt.is_some_and(|i| ..)` being true: the closure ran and said yes
+            if t[0] == "call" and t[1] in ("Option::map_or", "Option::is_some_and") and self.inter is not None and \
+                    (t[1] == "Option::is_some_and" or (len(t[2]) == 3 and t[2][1] == ("int", 0))):
+                clo = strip(t[2][-1])
+                cb = self.inter.facts.body(clo[1]) if clo[0] == "closure" else None
+                if cb is not None:
+                    cases = self.inter.ret_cases(cb)
+                    if len(cases) == 1:
+                        c = norm(cases[0][0])
+                        # the closure sits in a helper: its captured variables are the helper's parameters, while the guard's own
+                        # receiver (`rfind(<actual path>, '/')`) is already in the caller's name space — unify the two
+                        o_ = norm(t[2][0])
+                        if o_[0] == "call" and o_[2]:
+                            for x in walk(c):
+                                if x[0] == "okval" and x[1][0] == "call" and x[1][1] == o_[1] and x[1][2] and x[1][2][0] != o_[2][0] and \
+                                        x[1][2][0][0] == "arg":
+                                    src_, dst_ = x[1][2][0], o_[2][0]
+
+                                    def repl(y):
+                                        if y == src_:
+                                            return dst_
+                                        if isinstance(y, tuple):
+                                            return tuple(repl(z) for z in y)
+                                        return y
+                                    c = repl(c)
+                                    break
+                        if c[0] == "call" and c[1] == "HashMap::contains_key" and len(c[2]) == 2:
+                            out.append(c[2][1])
         return out
 
     def _is_child_prefix(self, t, key):
